@@ -42,6 +42,19 @@ class GotranPythonCodePrinter(PythonCodePrinter):
     def _hprint_Pow(self, expr, rational=False, sqrt="numpy.sqrt"):
         return super()._hprint_Pow(expr, rational, sqrt)
 
+    def _print_Pow(self, expr, rational=False):
+        # A conditional with integer values is printed as the integer array
+        # numpy.where(c, 4, 3), and numpy refuses to raise integers to negative
+        # integer powers (jax.numpy returns 0). Use a real exponent
+        if (
+            expr.exp.is_number
+            and expr.exp.is_integer
+            and expr.exp.is_negative
+            and expr.base.has(sympy.Piecewise)
+        ):
+            expr = sympy.Pow(expr.base, sympy.Float(int(expr.exp)), evaluate=False)
+        return super()._print_Pow(expr, rational=rational)
+
     def _print_MatrixElement(self, expr):
         if expr.parent.shape[1] == 1:
             # Then this is a column vector
